@@ -67,6 +67,9 @@ def template(kind, src_kind, amount):
     if kind == 'tx_kt1_params':
         return dict(kind='transaction', **base, amount=str(amount), destination=KT1,
                     parameters={'entrypoint': 'transfer', 'value': {'prim': 'Pair', 'args': [{'int': str(amount)}, {'string': 'x' * 40}]}})
+    if kind == 'tx_kt1_big':      # same kind (and, under fill, the same gas limit) as the other transactions, but thousands of bytes larger
+        return dict(kind='transaction', **base, amount=str(amount), destination=KT1,
+                    parameters={'entrypoint': 'store', 'value': {'bytes': 'c3' * 3000}})
     if kind == 'origination':
         return dict(kind='origination', **base, balance=str(amount), script={'code': CODE, 'storage': {'prim': 'Unit'}})
     if kind == 'delegation':
